@@ -199,6 +199,34 @@ var c06Kinds = []c06Kind{
 		}
 		return c06Prelude + "\nfn site(flag: i32) {\n    let arr: []i32 = [4, 5, 6];\n    " + loop + "\n}\n\nfn main() {\n    site(1);\n}\n"
 	}},
+	{name: "for_index_shadows_local", root: "i32", rootName: "i", print: "i", build: func(m string, imm bool, _ string) string {
+		loop := "for i, v in arr {\n        " + m + "\n        io::Println(i, v);\n    }"
+		if !imm {
+			loop = "for _, v in arr {\n        let i: i32 = 0;\n        " + m + "\n        io::Println(i, v);\n    }"
+		}
+		return c06Prelude + "\nfn site(flag: i32) {\n    let arr: []i32 = [4, 5, 6];\n    let i: i32 = 100;\n    io::Println(i);\n    " + loop + "\n}\n\nfn main() {\n    site(1);\n}\n"
+	}},
+	{name: "for_index_shadows_param", root: "i32", rootName: "i", print: "i", build: func(m string, imm bool, _ string) string {
+		loop := "for i, v in arr {\n        " + m + "\n        io::Println(i, v);\n    }"
+		if !imm {
+			loop = "for _, v in arr {\n        let i: i32 = 0;\n        " + m + "\n        io::Println(i, v);\n    }"
+		}
+		return c06Prelude + "\nfn site(flag: i32, i: i32) {\n    let arr: []i32 = [4, 5, 6];\n    io::Println(i);\n    " + loop + "\n}\n\nfn main() {\n    site(1, 50);\n}\n"
+	}},
+	{name: "for_index_nested_same_name", root: "i32", rootName: "i", print: "i", build: func(m string, imm bool, _ string) string {
+		loop := "for i, v in arr {\n        " + m + "\n        io::Println(i, v);\n    }"
+		if !imm {
+			loop = "for _, v in arr {\n        let i: i32 = 0;\n        " + m + "\n        io::Println(i, v);\n    }"
+		}
+		return c06Prelude + "\nfn site(flag: i32) {\n    let arr: []i32 = [4, 5, 6];\n    for i, w in arr {\n        io::Println(i, w);\n        " + strings.ReplaceAll(loop, "\n", "\n    ") + "\n    }\n}\n\nfn main() {\n    site(1);\n}\n"
+	}},
+	{name: "catch_var_shadows_local", root: "i32", rootName: "e", print: "e", build: func(m string, imm bool, _ string) string {
+		h := "catch e {\n        " + m + "\n        io::Println(e);\n    } 0"
+		if !imm {
+			h = "catch e0 {\n        let e: i32 = e0;\n        " + m + "\n        io::Println(e);\n    } 0"
+		}
+		return c06Prelude + "\nfn site(flag: i32) {\n    let e: i32 = 77;\n    io::Println(e);\n    let r0: i32 = mayfail(1) " + h + ";\n    io::Println(r0);\n}\n\nfn main() {\n    site(1);\n}\n"
+	}},
 	{name: "catch_var", root: "i32", rootName: "e", print: "e", build: func(m string, imm bool, _ string) string {
 		h := "catch e {\n        " + m + "\n        io::Println(e);\n    } 0"
 		if !imm {
@@ -341,7 +369,7 @@ func init() {
 	}
 	core.Register(&core.Prop{
 		ID: "C06",
-		Rule: fmt.Sprintf("product generator (rapid): immutable place kind (const scalar / struct / fixed array / array of structs / dynamic array, const inside a method, index variable of a two-variable for loop, catch error variable, &T parameter of struct / array / scalar / dynamic array type, &T receiver, local &T to a struct / array) x access path (ident, paren, field chains, constant and negative index, combinations up to depth 4) x mutation form (=, += -= *=, ++ --, &' borrow typed and inferred, passing &' to a &' parameter, calling a &'-receiver method, append) x context (plain, if, else, while, for-range, match arm, match default, closure body, block, nested) = %d combinations. Oracle: `ferret -t` rejects the program with an error; control twin = the same program with the binding made mutable (let, &'T, a local stand-in for loop index / catch variable) must be accepted, otherwise the case is discarded as not expressible. non-trivial = twin accepted (the rejection can only be about mutability); distinct = (kind, path, form, context)", total),
+		Rule: fmt.Sprintf("product generator (rapid): immutable place kind (const scalar / struct / fixed array / array of structs / dynamic array, const inside a method, index variable of a two-variable for loop - also when its name shadows an outer local, parameter or loop index -, catch error variable - also shadowing a local -, &T parameter of struct / array / scalar / dynamic array type, &T receiver, local &T to a struct / array) x access path (ident, paren, field chains, constant and negative index, combinations up to depth 4) x mutation form (=, += -= *=, ++ --, &' borrow typed and inferred, passing &' to a &' parameter, calling a &'-receiver method, append) x context (plain, if, else, while, for-range, match arm, match default, closure body, block, nested) = %d combinations. Oracle: `ferret -t` rejects the program with an error; control twin = the same program with the binding made mutable (let, &'T, a local stand-in for loop index / catch variable) must be accepted, otherwise the case is discarded as not expressible. non-trivial = twin accepted (the rejection can only be about mutability); distinct = (kind, path, form, context)", total),
 		Gen:        c06Gen,
 		New:        func() any { return &c06Case{} },
 		Check:      c06Check,
